@@ -121,4 +121,51 @@ theorem C25_confirms_intersect (arbs : List Arb) (c1 c2 : Conf)
   intro k hk
   exact (m1 k (List.mem_filter.1 hk).1).1
 
+/-! ## the block pool in front of the chain -/
+
+/-- **The block pool only ever holds a confirmation that passed `ConfirmSanityCheck`**, whatever
+    sequence of sane and forged confirmations for that block hash was appended. -/
+theorem C25_pool_only_sane : ∀ (cs : List Conf) (cached : Option Nat) (i j : Nat),
+    poolFinal cached i cs = some j →
+      cached = some j ∨ (i ≤ j ∧ ∃ c, cs[j - i]? = some c ∧ sanity c = none) := by
+  intro cs
+  induction cs with
+  | nil => intro cached i j h; left; exact h
+  | cons c cs ih =>
+    intro cached i j h
+    simp only [poolFinal] at h
+    rcases ih _ _ _ h with h1 | ⟨h2, c', hc', hs'⟩
+    · unfold poolStep at h1
+      split at h1
+      · rename_i hs
+        right
+        injection h1 with h1; subst h1
+        exact ⟨Nat.le_refl _, c, by simp, hs⟩
+      · left; exact h1
+    · right
+      refine ⟨by omega, c', ?_, hs'⟩
+      have : j - i = (j - (i + 1)) + 1 := by omega
+      rw [this, List.getElem?_cons_succ]; exact hc'
+
+/-- starting from an empty pool: the cached confirmation is one of the appended ones and is sane. -/
+theorem C25_pool_only_sane_from_empty (cs : List Conf) (j : Nat) (h : poolFinal none 0 cs = some j) :
+    ∃ c, cs[j]? = some c ∧ sanity c = none := by
+  rcases C25_pool_only_sane cs none 0 j h with h1 | ⟨_, c, hc, hs⟩
+  · cases h1
+  · exact ⟨c, by simpa using hc, hs⟩
+
+/-- … so a confirmation the chain takes from the pool and whose context check passes is an
+    accepted confirmation in the sense of `C25_accept_iff` (all signatures valid, quorum of
+    distinct normal arbiters). -/
+theorem C25_pool_then_chain (arbs : List Arb) (cs : List Conf) (j : Nat) (c : Conf)
+    (h : poolFinal none 0 cs = some j) (hc : cs[j]? = some c) (hctx : context arbs c = none) :
+    accepted arbs c = true := by
+  obtain ⟨c', hc', hs⟩ := C25_pool_only_sane_from_empty cs j h
+  rw [hc] at hc'; injection hc' with hc'; subst hc'
+  simp [accepted, hs, hctx]
+
+/-- non-vacuity: a forged confirmation after a sane one does not replace it. -/
+example : poolFinal none 0 [⟨1, true, [⟨1, true, true, true⟩]⟩, ⟨1, true, [⟨1, true, true, false⟩]⟩] = some 0 := by
+  decide
+
 end ElaVerif.C25
